@@ -33,7 +33,7 @@ man = dict(
     hooks=dict(guard='SCMO_VERIF', enable='not used: no hooks in /repo; environment stubs are injected into module namespaces from /verif at harness import',
                baseline_off_cmd=BASE_CMD, source_commits=[], add_only=True),
     engines=[dict(name='crosshair-z3', path='vlib/worker.py', serves_properties=[c['property_id'] for c in checks],
-                  kind_free_text='CrossHair 0.0.110 symbolic execution of the real repository functions, z3 5.1.0 as the deciding solver; own AST->z3 translation (vlib/py2smt.py) for arithmetic kernels')],
+                  kind_free_text='CrossHair 0.0.110 symbolic execution of the real repository functions, z3 5.1.0 as the deciding solver; own AST->z3 translation (vlib/py2smt.py) for arithmetic kernels, every such query cross-checked by the cvc5 1.0.3 binary, which also decides the bounded bit-precise float lemma (QF_BVFP) of C10')],
     checks=checks,
     notes='All checks: exit 0 = held on everything explored (inconclusive lemmas listed in evidence), 1 = replay-confirmed violation, 2 = harness error. See DESIGN.md.',
     not_applicable=na,
